@@ -29,6 +29,14 @@ pub struct Scenario {
     /// other valid members (same bits / ext) verified together with the subject
     pub batch_others: Vec<Member>,
     pub batch_position: usize,
+    /// the companions are repeated cyclically until the batch has this many members (sizes around
+    /// the verifier's chunk limit of 256 and its multiples)
+    #[serde(default)]
+    pub batch_size: Option<usize>,
+    /// caller-supplied, well-formed Pedersen generators with an unusual relationship (world::related_pedersen),
+    /// shared by every member of the batch
+    #[serde(default)]
+    pub pc_variant: u8,
     /// the prover's transcript object first goes through a proving attempt that fails (a witness
     /// that does not open the commitment) and is then reused for the honest attempt
     #[serde(default)]
@@ -64,7 +72,17 @@ fn run<G: Group>(sc: &Scenario, st: &mut RunStats) -> Vec<Violation> {
     st.group(G::NAME);
     let cfg = &sc.cfg;
     let key = format!("{:?}/{}", cfg, sc.rng_mode.kind());
-    let built = build::<G>(cfg, &sc.wit);
+    let pc = related_pedersen::<G>(cfg.ext, sc.pc_variant, cfg.bits);
+    let build_v = |c: &Config, w: &WitnessSpec| -> Built<G> {
+        match &pc {
+            Some(pc) => build_with_params::<G>(custom_params::<G>(c.bits, c.cap, pc.clone()), c, w),
+            None => build::<G>(c, w),
+        }
+    };
+    if pc.is_some() {
+        st.fault("caller_supplied_related_generators");
+    }
+    let built = build_v(cfg, &sc.wit);
     st.event(format!("build cfg={:?} seed={}", cfg, sc.wit.seed_nonce.is_some()));
     if cfg.cap > cfg.m {
         st.probe("capacity_gt_m");
@@ -100,7 +118,8 @@ fn run<G: Group>(sc: &Scenario, st: &mut RunStats) -> Vec<Violation> {
         wrong.zero_blind.clear();
         wrong.special_blind = None;
         wrong.same_as_prev.clear();
-        let bad = build::<G>(cfg, &wrong);
+        wrong.same_as_first.clear();
+        let bad = build_v(cfg, &wrong);
         let mut t = sc.ctx.transcript();
         let mut r0 = crate::faultrng::FaultRng::new(RngMode::Healthy(3));
         let first = guarded(|| G::prove(&mut t, &built.statement, &bad.witness, &mut r0));
@@ -233,7 +252,7 @@ fn run<G: Group>(sc: &Scenario, st: &mut RunStats) -> Vec<Violation> {
         let mut proofs = Vec::new();
         let mut ctxs: Vec<&Context> = Vec::new();
         for (i, mbr) in sc.batch_others.iter().enumerate() {
-            let b = build::<G>(&mbr.cfg, &mbr.wit);
+            let b = build_v(&mbr.cfg, &mbr.wit);
             let (r, _) = prove_mode::<G>(&mbr.ctx, &b.statement, &b.witness, &RngMode::Healthy(0xC01 + i as u64));
             match r {
                 Ok(Ok(p)) => {
@@ -250,6 +269,17 @@ fn run<G: Group>(sc: &Scenario, st: &mut RunStats) -> Vec<Violation> {
                     return out;
                 },
             }
+        }
+        if let Some(k) = sc.batch_size {
+            let n0 = sts.len();
+            let mut i = 0;
+            while sts.len() + 1 < k {
+                sts.push(sts[i % n0].clone());
+                proofs.push(proofs[i % n0].clone());
+                ctxs.push(ctxs[i % n0]);
+                i += 1;
+            }
+            st.fault("batch_beyond_one_chunk");
         }
         let pos = sc.batch_position.min(sts.len());
         sts.insert(pos, built.statement.clone());
@@ -292,7 +322,7 @@ impl Check for C01 {
     }
 
     fn rule(&self) -> String {
-        "each seeded run resolves (group, configuration, witness, context, RNG fault mode, batch companions) and drives prove_with_rng -> verify_batch in all three modes, alone and inside a batch; a run is non-trivial when an RNG fault mode other than Healthy actually served bytes or the proof was verified inside a multi-member batch; distinct = distinct event-log hashes".into()
+        "each seeded run resolves (group, configuration, witness, context, RNG fault mode, batch companions) and drives prove_with_rng -> verify_batch in all three modes, alone and inside a batch (a few batches are filled up to 255..513 members with the subject at a chunk edge); a run is non-trivial when an RNG fault mode other than Healthy actually served bytes or the proof was verified inside a multi-member batch; distinct = distinct event-log hashes".into()
     }
 
     fn assumptions(&self) -> Vec<String> {
@@ -340,6 +370,20 @@ impl Check for C01 {
             }
             batch_position = rng.usize_below(n + 1);
         }
+        // one run in 32 (free module, short vectors): the batch is filled up to a size around the chunk limit
+        let mut batch_size = None;
+        if !ristretto && !batch_others.is_empty() && cfg.full_length() <= 32 && batch_others.iter().all(|m| m.cfg.full_length() <= 32) && rng.chance(1, 10) {
+            let k = *rng.pick(&[255usize, 256, 257, 258, 300, 511, 512, 513]);
+            let k = if tier == Tier::Quick { k.min(300) } else { k };
+            batch_size = Some(k);
+            batch_position = match rng.below(5) {
+                0 => k - 1,
+                1 => 255.min(k - 1),
+                2 => 256.min(k - 1),
+                3 => 0,
+                _ => rng.usize_below(k),
+            };
+        }
         Scenario {
             group: if ristretto { "ristretto".into() } else { "free".into() },
             cfg,
@@ -348,6 +392,8 @@ impl Check for C01 {
             rng_mode,
             batch_others,
             batch_position,
+            batch_size,
+            pc_variant: if rng.chance(1, 8) { 1 + rng.below(5) as u8 } else { 0 },
             failed_attempt_first: rng.chance(1, 8),
         }
     }
@@ -358,10 +404,16 @@ impl Check for C01 {
 
     fn shrink(&self, sc: &Scenario) -> Vec<Scenario> {
         let mut v = Vec::new();
+        if sc.pc_variant != 0 {
+            let mut s = sc.clone();
+            s.pc_variant = 0;
+            v.push(s);
+        }
         if !sc.batch_others.is_empty() {
             let mut s = sc.clone();
             s.batch_others.clear();
             s.batch_position = 0;
+            s.batch_size = None;
             v.push(s);
             if sc.batch_others.len() > 1 {
                 for i in 0..sc.batch_others.len() {
@@ -455,7 +507,7 @@ impl Check for C01 {
             "capacity_gt_m", "m_ge_8", "zero_round_proof", "bits_64", "seed_present", "promise_eq_value",
             "value_max", "value_zero", "ext_1", "ext_2", "ext_3", "ext_4", "ext_5", "ext_6", "bits_1", "bits_2",
             "bits_4", "bits_8", "bits_16", "bits_32", "rng_all_zero", "rng_all_ones", "rng_constant_byte",
-            "rng_short_period", "rng_counter", "rng_stuck_after", "rng_replay", "rng_zero_block_at", "rng_repeat_block_at", "batch_context", "byte_round_trip_verified", "serde_round_trip_verified", "failed_attempt_on_the_same_transcript_first",
+            "rng_short_period", "rng_counter", "rng_stuck_after", "rng_replay", "rng_zero_block_at", "rng_repeat_block_at", "batch_context", "batch_beyond_one_chunk", "caller_supplied_related_generators", "byte_round_trip_verified", "serde_round_trip_verified", "failed_attempt_on_the_same_transcript_first",
         ];
         if tier == Tier::Thorough {
             v.push("bits_64");
